@@ -10,7 +10,10 @@
    written on every (re-)lock (the repaired code); FALSE: only when the locked block changes (the
    code before the repair) -- used as a sensitivity check: TLC must then find the disagreement. *)
 EXTENDS Integers, FiniteSets, TLC
-CONSTANTS Corr, NByz, Values, MaxRound, MaxCrash, FixWal, Order
+CONSTANTS Corr, NByz, Values, MaxRound, MaxCrash, FixWal, Order,
+          MidCrash,        \* TRUE: a validator may lose power inside the precommit step, after its lock WAL was synced and
+                           \*       before its precommit left ("locknosend"); it restarts from its WALs at once
+          SendBeforeSync   \* sensitivity switch (C02): TRUE models an engine that sends a precommit BEFORE the lock is durable
 N == Cardinality(Corr) + NByz
 Nil == "nil"
 None == "none"
@@ -54,18 +57,30 @@ PcAllowed(i, g) ==
   \/ decision[i] = None /\ g = "timeout"
   \/ decision[i] = None /\ g = "lock" /\ polka[gr] \in Values
   \/ decision[i] = None /\ g = "nilpolka" /\ polka[gr] = Nil
+  \/ MidCrash /\ decision[i] = None /\ g = "locknosend" /\ polka[gr] \in Values
+  \/ SendBeforeSync /\ decision[i] = None /\ g = "sendnolock" /\ polka[gr] \in Values
+PcKinds == {"abstain", "timeout", "lock", "nilpolka"} \cup (IF MidCrash THEN {"locknosend"} ELSE {}) \cup (IF SendBeforeSync THEN {"sendnolock"} ELSE {})
+Locks(g) == g \in {"lock", "locknosend", "sendnolock"}        \* the volatile lock is taken
+Durable(g) == g \in {"lock", "locknosend"}                    \* ... and written to the lock WAL before anything is sent
+Sends(g) == g \in {"lock", "sendnolock"}                      \* the precommit reaches the network
 \* g: how every correct validator leaves the prevote step of this round
 PrecommitPhaseG(g) ==
   /\ phase = "precommit"
   /\    /\ \A i \in Corr : PcAllowed(i, g[i])
-        /\ lockedVal' = [i \in Corr |-> IF g[i] = "lock" THEN polka[gr] ELSE IF g[i] = "nilpolka" THEN None ELSE lockedVal[i]]
-        /\ lockedRound' = [i \in Corr |-> IF g[i] = "lock" THEN gr ELSE IF g[i] = "nilpolka" THEN -1 ELSE lockedRound[i]]
-        /\ walVal' = [i \in Corr |-> IF g[i] = "lock" /\ (FixWal \/ lockedVal[i] # polka[gr]) THEN polka[gr] ELSE walVal[i]]
-        /\ walRound' = [i \in Corr |-> IF g[i] = "lock" /\ (FixWal \/ lockedVal[i] # polka[gr]) THEN gr ELSE walRound[i]]
-        /\ pcq' = [pcq EXCEPT ![gr] = IF Q(Cardinality({i \in Corr : g[i] = "lock"})) THEN polka[gr] ELSE None]
+        /\ Cardinality({i \in Corr : g[i] = "locknosend"}) + crashes <= MaxCrash
+        \* a validator that lost power in the middle of the step comes back with what its WALs hold
+        /\ LET nwv == [i \in Corr |-> IF Durable(g[i]) /\ (FixWal \/ lockedVal[i] # polka[gr]) THEN polka[gr] ELSE walVal[i]]
+               nwr == [i \in Corr |-> IF Durable(g[i]) /\ (FixWal \/ lockedVal[i] # polka[gr]) THEN gr ELSE walRound[i]]
+           IN /\ walVal' = nwv /\ walRound' = nwr
+              /\ lockedVal' = [i \in Corr |-> IF g[i] = "locknosend" THEN nwv[i]
+                                              ELSE IF Locks(g[i]) THEN polka[gr] ELSE IF g[i] = "nilpolka" THEN None ELSE lockedVal[i]]
+              /\ lockedRound' = [i \in Corr |-> IF g[i] = "locknosend" THEN nwr[i]
+                                                ELSE IF Locks(g[i]) THEN gr ELSE IF g[i] = "nilpolka" THEN -1 ELSE lockedRound[i]]
+        /\ pcq' = [pcq EXCEPT ![gr] = IF Q(Cardinality({i \in Corr : Sends(g[i])})) THEN polka[gr] ELSE None]
+        /\ crashes' = crashes + Cardinality({i \in Corr : g[i] = "locknosend"})
   /\ phase' = "between"
-  /\ UNCHANGED <<gr, decision, polka, prop, crashes>>
-PrecommitPhase == \E g \in [Corr -> {"abstain","timeout","lock","nilpolka"}] : PrecommitPhaseG(g)
+  /\ UNCHANGED <<gr, decision, polka, prop>>
+PrecommitPhase == \E g \in [Corr -> PcKinds] : PrecommitPhaseG(g)
 \* validator i learns of the polka of round r (late or reordered prevotes) and releases its older lock
 UnlockR(i, r) ==
   /\ phase = "between" /\ decision[i] = None /\ lockedVal[i] # None
